@@ -665,7 +665,7 @@ class P(Prop):
                     extra,
                     lost,
                 ), False
-        if got["peps"] != exp_peps:
+        if "peps" in got and got["peps"] != exp_peps:  # (not observed at pipeline level: harness/pipeline_oracles.py)
             return "PEP list for the cutoff %r differs from the PEPs of the non-decoy evidence peptides %r" % (
                 [float(unrat(x)) for x in got["peps"]],
                 [float(unrat(x)) for x in exp_peps],
@@ -891,3 +891,24 @@ class P(Prop):
             if why:
                 fails.append({"case": case, "impl": out, "why": why, "kind": "cli"})
         return {"evaluations": n, "failures": fails, "info": info}
+
+
+# ---- pipeline-level cases: the whole `get_protein_group_results` for every shipped method file against the composed Lean
+# model PgFdr.Pipeline.run, with the C05 statement as the oracle (harness/pipeline_oracles.py:oracle_c05): in EVERY pass the
+# evidence handed to the competition is the join (`_join_oracle`: discard / razor with md5) of that pass's groups with the
+# FULL peptide list of the case, every best-PEP score is -log10 of the smallest PEP of the group's evidence, and the
+# peptide dictionary the caller passed in is unchanged after the call.  (The "pipe" cases above wrap the collection
+# function and take the list IT RECEIVED as given; here the list is the caller's.)
+import pipeline_oracles as _po  # noqa: E402
+
+_BaseP = P
+
+
+class P(_po.PipelineMixin2, _BaseP):
+    pipeline_share = 0.05      # ~100 of the 2 000 quick cases
+    pipeline_oracles = ("c05",)
+    rule = _BaseP.rule + (
+        "; 5 % of the cases run the whole inference function (harness/pipeline.py: a shipped method file through "
+        "methods.parse_method_toml, structured peptide lists of harness/gen_pil.py incl. rescue-merge inputs) and state C05 "
+        "on the evidence and scores handed to the competition of every pass against the caller's full peptide list"
+    )
